@@ -42,3 +42,24 @@ def validate_quad(seed, trials=30):
         n += 1
     return dict(name='QuadStub closed form vs scipy.integrate.quad', ok=worst < 1e-7, n=n,
                 detail='worst relative deviation %.2e' % worst)
+
+
+def validate_piecewise(seed, trials=12):
+    """PiecewisePoly.from_real_spline vs the real FITPACK object: values and integrals on shipped-like tables (5..16 points)"""
+    from scipy.interpolate import InterpolatedUnivariateSpline
+    from vf.stubs.numeric import PiecewisePoly
+    rnd = random.Random(seed + 2)
+    worst, n = 0.0, 0
+    for _ in range(trials):
+        N = rnd.randint(5, 16)
+        xs = sorted(rnd.sample(range(100, 3000, 13), N))
+        ys = [rnd.uniform(1, 40) for _ in xs]
+        real = InterpolatedUnivariateSpline(xs, ys, k=3)
+        mine = PiecewisePoly.from_real_spline(real)
+        for _ in range(10):
+            t, a, b = (rnd.uniform(xs[0], xs[-1]) for _ in range(3))
+            worst = max(worst, abs(float(real(t)) - mine(t)) / (1 + abs(mine(t))),
+                        abs(real.integral(a, b) - mine.integral(a, b)) / (1 + abs(mine.integral(a, b))))
+            n += 2
+    return dict(name='PiecewisePoly (PPoly.from_spline) vs FITPACK spline, 5..16 points', ok=worst < 1e-8, n=n,
+                detail='worst relative deviation %.2e' % worst)
